@@ -77,7 +77,10 @@ def cells_of(r):
 
 def check_grid(m, sizes=None):
     R, C = len(m), len(m[0])
-    txt = " ".join("".join(str(v) for v in row) for row in m)
+    # rows are "separated by a whitespace": any of them (chosen from the grid itself, so that a case always uses the same one)
+    SEPS = [" ", "\n", "\t", "\r\n", "  ", " \n", "\n\n"]
+    sep = SEPS[(sum(map(sum, m)) + 3 * R + C) % len(SEPS)]
+    txt = sep.join("".join(str(v) for v in row) for row in m) + ("\n" if (R + C) % 3 == 0 else "")
     try:
         s = Strop(txt) if sizes is None else Strop(txt, sizes[0], sizes[1])
         got = s.is_strop
